@@ -40,10 +40,10 @@ type TypeCall struct {
 type Result struct {
 	TypeCalls []TypeCall
 	Vars      map[string]interface{} // coerced variable values
-	Data     interface{} // nil (data: null) or map[string]interface{}
-	Errors   []ExecErr
-	Calls    []Call
-	ReqError string // non-empty: the request fails before execution (no data)
+	Data      interface{}            // nil (data: null) or map[string]interface{}
+	Errors    []ExecErr
+	Calls     []Call
+	ReqError  string // non-empty: the request fails before execution (no data)
 	// TypeCalls counts type-resolution questions asked, per path.
 	Thunks int
 	// Non-triviality measures: how many levels the deepest null propagation climbed, and per
